@@ -106,7 +106,7 @@ def handle (req : Sexp) : Sexp :=
       | .error e => some (.list [.atom "err", .str e])
     | .list [.atom "wf", b] => do
       let b ← getBox b
-      some (ok (ofBool (wfRoot b) :: (rootReasons b).eraseDups.map Sexp.str))
+      some (ok (ofBool (wfRoot b) :: (rootReasons b).eraseDups.map fun (e, r) => .list [ofInt e, .str r]))
     | .list [.atom "intattr", p, m] => do
       some (ok [ofNat (intAttr (← optInt p) (← m.asNat?))])
     | _ => none
